@@ -726,6 +726,8 @@ func (env *Env) call(x *SExpr) Value {
 	case "ref":
 		v := env.eval(args[0])
 		switch {
+		case len(v.S) == 0 && v.Loc != nil && v.Loc.Kind == LHeap:
+			return intVal(env.coerceKey(v, tInt))
 		case isInterface(v.T):
 			return intVal(v.S[1])
 		case isRefLike(v.T):
@@ -1097,6 +1099,14 @@ func (e *Exec) constValue(t types.Type, c constant.Value) Value {
 // coerceKey converts a ghost-map key; references (pointers, interface payloads) index int-keyed maps.
 func (env *Env) coerceKey(v Value, kt types.Type) string {
 	if isInteger(kt) {
+		if len(v.S) == 0 && v.Loc != nil && v.Loc.Kind == LHeap {
+			// the address of a field inside a heap object (e.g. a mutex embedded in a struct)
+			t := fmt.Sprintf("(fieldaddr %d %s)", hashString(heapComp(v.Loc.Obj, v.Loc.Path))%1000000007, v.Loc.Ref)
+			if env.e.quiet == 0 {
+				env.e.axiom("(> " + t + " 0)")
+			}
+			return t
+		}
 		switch {
 		case isInterface(v.T):
 			return v.S[1]
